@@ -269,17 +269,14 @@ fn diag(m: &Machine) -> Value {
         "in_interrupt": t.in_interrupt,
         "interrupt_stack": t.interrupt_stack,
         "next_interrupt_id": t.next_interrupt_id,
-        "last_fired": t.last_fired,
         "key_irq_latched": t.key_irq_latched,
         "delivered_masks": t.delivered_masks,
         "call_depth": rt.state.call_depth(),
         "call_sub_level": rt.state.call_sub_level(),
         "temps": temps,
-        "imr_reg_mirror": rt.get_reg("IMR"),
         "kb_state": kb_state,
         "lcd_counters": lcd_counters,
         "overlay_data": card,
-        "mem_counts": [rt.memory.memory_read_count(), rt.memory.memory_write_count()],
         "fast_mode": rt.fast_mode,
         "ext_hash": fnv64(rt.memory.external_slice()),
     })
